@@ -87,7 +87,9 @@ func c07Curated() []lifeSc {
 		}
 	}
 	add(func(sc *lifeSc) { sc.Cycles, sc.Reconnect, sc.Tracking, sc.Welcome = 3, "other", true, "diff" })
-	add(func(sc *lifeSc) { sc.Cycles, sc.Reconnect, sc.Tracking, sc.Welcome, sc.PingMs = 5, "handler", true, "same", 20 })
+	add(func(sc *lifeSc) {
+		sc.Cycles, sc.Reconnect, sc.Tracking, sc.Welcome, sc.PingMs = 5, "handler", true, "same", 20
+	})
 	return out
 }
 
